@@ -333,6 +333,23 @@ class SysEngine(MempoolEngine):
         if k == 'refuse':
             self.bump('out_of_range_requests_judged')
             if 'error' not in reply:
+                if tight_chain is None:
+                    # sent while events were in flight: the request was outside the daemon's chain, but the server may still
+                    # have been on an earlier branch in which it is inside - then the answer must verify against that branch
+                    m, pr = info['method'], info['params']
+                    sub = ({'k': 'get_merkle', 'h': pr[1], 'txid': pr[0]} if m.endswith('get_merkle') else
+                           {'k': 'header_proof', 'h': pr[0], 'cp': pr[1]} if m.endswith('block.header') else
+                           {'k': 'id_from_pos_merkle', 'h': pr[0], 'pos': pr[1]})
+                    saved, self.violations = self.violations, []
+                    try:
+                        self.judge_proof(dict(info, **sub), reply, None)
+                        bad = bool(self.violations)
+                    except (KeyError, IndexError, TypeError, ValueError):
+                        bad = True
+                    self.violations = saved
+                    if not bad:
+                        self.bump('out_of_range_answered_correctly_from_an_earlier_served_branch')
+                        return
                 self.viol('proof/out-of-range-answered', f'a request outside the chain was answered: {info["method"]} {info["params"]}')
             return
         if res is None:
